@@ -63,6 +63,16 @@ def run(ctx):
                 for tl in tails:
                     r = b"refs/heads/" + tl
                     reqs.append(("regexp %s %s" % (vlib.hx(txt.encode()), vlib.hx(r)), "regexp %s %s" % (RC.re_enc(var), vlib.hx(r)), (txt, r, var)))
+    # case-insensitive literals, alone (the whole pattern a literal under (?i)) and combined, against names in every case
+    ci_names = [b"refs/heads/main", b"refs/heads/MAIN", b"refs/heads/Main", b"REFS/HEADS/MAIN", b"refs/heads/release", b"refs/heads/Release",
+                b"refs/tags/v1", b"refs/tags/V1", b"refs/tags/v1.0", b"refs/stash", b"refs/heads/mainx", b"refs/heads/mai"]
+    ci_forms = [("i", b"refs/heads/main", 0), ("i", b"REFS/HEADS/MAIN", 0), ("i", b"refs/heads/Release", 1), ("i", b"refs/tags/v1.0", 1), ("i", b"refs/stash", 0),
+                ("&", RC.lit_re(b"refs/heads/"), ("i", b"RELEASE", 1)), ("&", ("i", b"refs/HEADS/", 1), ("*", (".",))),
+                ("|", ("i", b"refs/heads/MAIN", 1), RC.lit_re(b"refs/tags/v1")), ("&", ("i", b"refs/tags/", 1), ("&", ("i", b"V", 1), ("+", ("[", False, [(48, 57)]))))]
+    for var in ci_forms:
+        txt = RC.re_text(var)
+        for r in ci_names:
+            reqs.append(("regexp %s %s" % (vlib.hx(txt.encode()), vlib.hx(r)), "regexp %s %s" % (RC.re_enc(var), vlib.hx(r)), (txt, r, var)))
     api = vlib.batch(ctx["bins"]["api"], [q[0] for q in reqs])
     mod = vlib.batch(ctx["modelrun"], [q[1] for q in reqs])
     for (a_req, m_req, extra), a, m in zip(reqs, api, mod):
